@@ -18,7 +18,8 @@ DEFAULT = dict(
     choices=1.0, conds=1.0, seqs=1.0, glue=1.0, tags=1.0, tunnels=1.0, threads=0.6, functions=1.0,
     strings=1.0, lists=0.0, random=0.0, shuffles=0.0, externals=0.0, faults=0.0, flows=0,
     fallback=0.6, labels=0.6, readcounts=1.0, stitches=0.5, impure_functions=0.3,
-    assign_after_newline=1.0, unicode=0.0, floats=0.0,
+    assign_after_newline=1.0, unicode=0.0, floats=0.0, hostvar=0, turns=1.0, msgs=0.0, ext_in_strings=0.0,
+    ext_counters=0,
 )
 
 
@@ -185,9 +186,9 @@ class Gen:
             return "{%s}" % self.list_expr()
         if c < 0.94 and self.w["readcounts"]:
             c2 = r.random()
-            if c2 < 0.4 and self.knots:
+            if c2 < 0.4 and self.knots and self.w["turns"]:
                 return "{TURNS_SINCE(-> %s)}" % r.choice(self.knots)
-            if c2 < 0.7:
+            if c2 < 0.7 or not self.w["turns"]:
                 return "{CHOICE_COUNT()}"
             return "{TURNS()}"
         if c < 0.97 and self.externals:
@@ -335,6 +336,8 @@ class Gen:
         for (name, items) in self.listdefs:
             on = [it for it in items if r.random() < 0.4]
             L.append("LIST %s = %s" % (name, ", ".join(("(%s = %d)" if it in on else "%s = %d") % it for it in items)))
+        if w["hostvar"]:
+            L.append("VAR hostvar = 0")
         for v in self.ints:
             L.append("VAR %s = %d" % (v, r.randint(0, 5)))
         for v in self.bools:
